@@ -61,7 +61,7 @@ K_BIN_LIST = 'bin_time,list-typed-time-descriptor'
 K_ODD_SINGLE = 'odd_even_split,single-value'
 K_SUBT_EMPTY = 'subset_time,no-time-point-in-range'
 # labels whose defect has been repaired in /repo (aed6debb, 95e01e94, 1694cd79, 1f4e5f7f, 6122a8e4): histories continue through such steps
-REPAIRED = {K_TAO_SINGLE, K_TSORT, K_BIN_LIST, K_TAO_DUP, K_ODD_SINGLE}
+REPAIRED = {K_TAO_SINGLE, K_TSORT, K_BIN_LIST, K_TAO_DUP, K_ODD_SINGLE, K_SUBT_EMPTY}
 
 
 # =====================================================================================================
